@@ -40,6 +40,8 @@ Check(e) ==
     [] e.k = "sshmpint" -> Report(SshMpintOk(e), <<"BAD", IF e.neg THEN "ssh-mpint-negative" ELSE "ssh-mpint", l>>)
     [] e.k = "mpint"    -> Report(MpintOk(e), <<"BAD", IF FixedMpint(e.mag, e.n) = Invalid THEN "mpint-too-long-not-refused" ELSE "mpint", l>>)
     [] e.k = "ts"       -> Report(TsOk(e), <<"BAD", "timestamp", l>>)
+    \* the same field read behind and in front of other bytes: same value, same consumed length
+    [] e.k = "cursor"   -> Report(e.same, <<"BAD", "result-depends-on-what-surrounds-the-field", l>>)
 
 Init == l = 1
 Next == l <= Len(T) /\ Check(T[l]) /\ l' = l + 1
